@@ -33,7 +33,7 @@ ASSUMPTIONS = [
 ]
 TRUSTED_BASE = ["hooks marwood/src/vm/verif.rs (forced collections, symbol table accessor)"]
 MANIFEST = dict(
-    text="Coq theorems: the interning invariant (symtab n = Some a iff cell a is allocated and holds symbol n) holds for a new heap and is preserved by alloc, put, maybe_put, put_cell, maybe_put_cell, free, sweep, grow and a whole collection; same name iff same cell; put interns; a reachable symbol keeps cell and entry across a collection; symbol->string inverts string->symbol for every string of scalar values (after fix F10; refuted for the pinned code); string->symbol inverts symbol->string on made symbols and on plain identifiers, refuted on two recorded classes. Tied to /repo by names x routes x schedules sessions and by a 3-way check of the two builtins.",
+    text="Coq theorems: the interning invariant (symtab n = Some a iff cell a is allocated and holds symbol n) holds for a new heap and is preserved by alloc, put, maybe_put, put_cell, maybe_put_cell, free, sweep, grow and a whole collection; same name iff same cell; put interns; a reachable symbol keeps cell and entry across a collection; symbol->string inverts string->symbol for every string of scalar values (after fix F10; refuted for the pinned code); string->symbol inverts symbol->string on made symbols and on plain identifiers, refuted on two recorded classes; the two routes stated together for ALL names (C18_same_name_same_symbol: the symbol the reader interns for a spelling and the symbol string->symbol makes, in either order, are the same cell iff the names are equal, and eq? answers accordingly; the same spelling gives the same cell for every plain identifier, refuted for + at the level of cells). Tied to /repo by names x routes x schedules sessions and by a 3-way check of the two builtins.",
     design="DESIGN.md section 5 C18",
     note="fix F10 applied (symbol.rs). Open findings: non-initial-first-char, backslash-in-reader-symbol (decidable predicates known_first_char_not_initial / known_backslash_in_symbol in Proofs/SymbolProofs.v). The claim that every route goes through Heap::put rests on the compiler model of another package. Axioms: none.",
     technique="Rocq/Coq proof (heap invariant, induction on strings) + correspondence check under forced-collection schedules")
